@@ -569,7 +569,7 @@ func runSolve(c *kit.Ctx, r *kit.Rand, w *world, pods []*corev1.Pod, jpods []sPo
 		sc.Kind = kind + "-strict"
 		sc.KfKey = w.kfFor(o, jobs, jlevels, jpods[i])
 		if sc.KfKey != "" {
-			bucketKey += ",outranking-pool-feasible-only-after-relaxation(" + sc.KfKey[:12] + ")"
+			bucketKey += ",outranking-pool-feasible-only-after-relaxation(" + strings.TrimPrefix(sc.KfKey, "lower-weight-pool-chosen-") + ")"
 		}
 		c.Count(bucketKey)
 		c.AddCase(fmt.Sprintf("CaseStrict %s %s %s", w.gPools(), kit.GList(glevels), kit.GList(gobs)), sc, "")
